@@ -714,6 +714,9 @@ func packageRegexpLiteral(pk *packages.Package, e ast.Expr) (string, bool) {
 
 // generatorLoopExits: the reviewed early exits of the generator's loops over input collections.
 var generatorLoopExits = map[string]string{
+	"generator.appGenerator.makeCodegenApp › loop over generator.GenOperation #1 › break #1":      "‹*generator.appGenerator›.GenOpts.IsClient ⇒ the loop only looks for two operations the server's router would merge; a client addresses both, so nothing is looked for (no element is written or skipped here)",
+	"generator.clientGenerator.Generate › loop over generator.GenDefinition #1 › continue #1":     "‹generator.GenDefinition›.IsStream ⇒ generate client writes no model file for a definition that resolves to a stream (observed, DESIGN §9.3 round 8: left as the tool behaves since the snapshot); the server generator has no such exit",
+	"generator.operationGenerator.Generate › loop over generator.GenOperation #1 › continue #1":   "‹*generator.operationGenerator›.GenOpts.DumpData ⇒ --dump-data prints the template data of every operation instead of rendering it",
 	"generator.appGenerator.makeSecuritySchemes › loop over analysis.RequiredSecuritySchemes() #1 › conditional store #1": "‹bool› && ‹*spec.SecurityScheme› != nil ⇒ a scheme required by an operation but not defined in securityDefinitions has nothing to generate; the others are collected each in its own right",
 	"generator.hasValidations › loop over spec.Schema #1 › answers true #1":                                               "‹spec.Schema›.Ref.String() != \"\" || hasValidations(&‹spec.Schema›, false) ⇒ an allOf member that is a $ref, or that carries validations of its own (looked for recursively), makes the composed schema validatable",
 	"generator.codeGenOpBuilder.analyzeTags › loop over spec.Tag #1 › continue #1":                                        "‹spec.Tag›.Name != ‹string› ⇒ search for the tag object of the chosen tag name: other tags are passed over",
